@@ -164,6 +164,18 @@ func (l *lexer) run() {
 	for action := l.lexPipeline; action != nil; {
 		action = action()
 	}
+	// here-documents which were announced but never read
+	l.heredoc.mu.Lock()
+	pending := l.heredoc.stack
+	l.heredoc.mu.Unlock()
+	if len(pending) != 0 {
+		l.mu.Lock()
+		failed := l.err != nil
+		l.mu.Unlock()
+		if !failed {
+			l.error(pending[0].OpPos, "syntax error: here-document delimited by EOF")
+		}
+	}
 }
 
 // wait blocks until the parser requests the next token, so that the
